@@ -195,7 +195,10 @@ pub fn run_pipeline(
 
     let mut fds_capture_stdout = None;
     let mut fds_capture_stderr = None;
-    if capture {
+    // (a single builtin runs in the shell process and hands its output over
+    // in its result: no pipes, which the programs it may start - `source` -
+    // would inherit)
+    if capture && !cl.is_single_and_builtin() {
         match pipe() {
             Ok(fds) => fds_capture_stdout = Some(fds),
             Err(e) => {
